@@ -1168,6 +1168,17 @@ impl<'a> GeneratorState<'a> {
     }
 
     fn generate_csleep_statement(&mut self, cycles: i32, pos: usize) -> Result<(), Error> {
+        // Like the NOPs, the accesses to DUMMY are there for their duration only
+        self.protected = true;
+        let res = self.generate_csleep_instructions(cycles, pos);
+        self.protected = false;
+        res?;
+        // DEC and PLA change N and Z: they no longer describe what was loaded or stored before
+        self.flags = FlagsState::Unknown;
+        Ok(())
+    }
+
+    fn generate_csleep_instructions(&mut self, cycles: i32, pos: usize) -> Result<(), Error> {
         match cycles {
             2 => self.sasm_protected(NOP)?,
             3 => self.asm(
@@ -1231,8 +1242,6 @@ impl<'a> GeneratorState<'a> {
                     .syntax_error("Unsupported cycle sleep value", pos))
             }
         };
-        // DEC and PLA change N and Z: they no longer describe what was loaded or stored before
-        self.flags = FlagsState::Unknown;
         Ok(())
     }
 
